@@ -322,8 +322,27 @@ func checkC06(c *Ctx) {
 		}, 0) {
 			n++
 			s := ds.Site
+			// the marker: the function below CreateProposal that calls CommandCache.Proposed (today Proposer.markProposed),
+			// found by what it does so that it may be a method or a plain function taking the fields it needs
+			var markers []string
+			for _, hf := range helperClosure(p, cp, 2) {
+				if hf == cp || funcPkgPath(hf) != funcPkgPath(cp) {
+					continue
+				}
+				if len(callsIn(hf, true, func(cc *ssa.CallCommon) bool {
+					cal := cc.StaticCallee()
+					return cal != nil && cal.String() == "(*"+modPath+"/internal/proto/clientpb.CommandCache).Proposed"
+				})) > 0 {
+					markers = append(markers, shortName(hf)+"(")
+				}
+			}
 			ok := errNilOf(ds.Facts, func(k string) bool {
-				return strings.HasPrefix(k, "(*hs/protocol/consensus.Proposer).markProposed(p0, ")
+				for _, m := range markers {
+					if strings.HasPrefix(k, m) {
+						return true
+					}
+				}
+				return false
 			})
 			c.Check(ok, "C06.7", "CreateProposal: markProposed before CommandCache.Get", p.Pos(s.Pos()),
 				"a batch is taken only after markProposed succeeded", "Get reachable without a successful markProposed")
